@@ -72,10 +72,10 @@ def check_full(ctx, fb):
                 ok, why = False, "a proof step is not selected by the parity of the node index"
                 continue
             arms[par[0][1]] = pushes[0][3]
-            nexts.add(carried_value(it, p, "index"))
             for a, v in p.conds():
                 if a[0] == "v":
                     idx_phi = a[1][2]
+            nexts.add(carried_of(p, idx_phi) if idx_phi is not None else None)
     want_next = ("bin", "Sub", ("bin", "Shr", ("bin", "Add", idx_phi, ONE), mk_const("i32", 1)), ONE) if idx_phi else None
     if ok:
         l = arms.get(1)
@@ -152,11 +152,12 @@ def check_optimal(ctx, fb):
             continue
         n += 1
         iphi = dphi = None
+        # the two loop-carried variables of a step, by role: the level counter starts at self.depth, the running index at the position
         for s in subterms(pushes[0][3]):
-            if s[0] == "phi" and s[3] == "i":
-                iphi = s
-            if s[0] == "phi" and s[3] == "depth":
+            if s[0] == "phi" and s[4] == F(P(1), "depth"):
                 dphi = s
+            elif s[0] == "phi" and not (isinstance(s[4], tuple) and s[4] and s[4][0] == "call"):
+                iphi = s
         if iphi is None or dphi is None or len(pushes) != 1:
             ok, why = False, "proof step shape"
             break
@@ -172,8 +173,8 @@ def check_optimal(ctx, fb):
             ok, why = False, "direction is %s, specification 1 - ((i ^ 1) & 1): 0 when the current node is the left child" % sh(b, 120)
             break
         if p.kind == "backedge":
-            ni = carried_value(it, p, "i")
-            nd = carried_value(it, p, "depth")
+            ni = carried_of(p, iphi)
+            nd = carried_of(p, dphi)
             if ni != ("bin", "Shr", sib, mk_const("i32", 1)) or nd != ("bin", "Sub", dphi, ONE):
                 ok, why = False, "the climb goes to (i=%s, depth=%s), specification ((i^1)>>1, depth-1)" % (sh(ni, 60), sh(nd, 60))
                 break
@@ -202,13 +203,15 @@ def check_optimal(ctx, fb):
             if a[0] == "b" and a[1][0] == "bin" and a[1][1] == "Eq" and cint(a[1][3]) == 0:
                 w = a[1][2][1]
                 sel = v
-        acc = carried_value(crf, p, "acc")
+        # the accumulator is the loop-carried variable that starts at the leaf (parameter 2)
+        accs = phi_with_init(p, lambda i0: i0 == P(2))
+        acc = accs[0][1] if len(accs) == 1 else None
         arms[sel] = (acc, w)
     good = set(arms) == {True, False}
     if good:
         a0, w = arms[True]
         a1, _ = arms[False]
-        accphi = [s for s in subterms(a0) if s[0] == "phi" and s[3] == "acc"]
+        accphi = [s for s in subterms(a0) if s[0] == "phi" and s[4] == P(2)]
         good = bool(accphi) and is_hash_of(a0, accphi[0], F(w, "0")) and is_hash_of(a1, F(w, "0"), accphi[0]) and accphi[0][4] == P(2)
     ctx.check(good, "R07-1", "OptimalMerkleProof::compute_root_from", "bit 0: H(acc, sibling); else H(sibling, acc); from the leaf", "recomputation arms %s" % ({k: sh(v[0], 100) for k, v in arms.items()}), loc(crf))
     it2, a = closure_arms(fb, OPT_P + "get_path_index::{closure#0}")
